@@ -71,12 +71,14 @@ fn project_groups_ii(root: &str) -> Option<(Vec<RuleGroup>, Vec<String>, Vec<Str
 pub fn run() -> i32 {
     let mut r = Report::new("C10");
     let thorough = r.thorough();
-    r.rule = "(A) for every state s of the C08 BFS (reached by its shortest history h from seed w) and every rule r of the 66-rule alphabet: run(h.r)(w) vs run(r)(render(run(h)(w))) through the public API, whenever the intermediate rendering has no �; a separate box with americanist seed words; (B) every history of <= n rules: every grouping into rule groups, with an empty group at every position, vs one group per rule; (C) the shipped germanic and indo-iranian example projects (frozen copy and live copy): every split point of the concatenated rule-group list x every word. Non-trivial = the rules changed the word.".into();
+    r.rule = "(A) for every state s of the C08 BFS (reached by its shortest history h from seed w) and every rule r of the 66-rule alphabet: run(h.r)(w) vs run(r)(render(run(h)(w))) through the public API, whenever the intermediate rendering has no �; a separate box with americanist seed words and one with words typed with the ASCII shorthands ' , : ; over an alphabet that creates and removes the five americanist segments; (B) every history of <= n rules: every grouping into rule groups, with an empty group at every position, vs one group per rule; (C) the shipped germanic and indo-iranian example projects (frozen copy and live copy): every split point of the concatenated rule-group list x every word. Non-trivial = the rules changed the word.".into();
     let all_rules: Vec<&str> = super::c08::RULES.to_vec();
     let no_edge = |_: &CW, _: usize, _: &Step| -> Vec<Viol> { vec![] };
     let no_state = |_: &CW| -> Option<(String, String)> { None };
     let mut states_total = 0u64;
-    for (boxname, seeds_txt, depth) in [("plain seeds", super::c08::SEEDS.to_vec(), if thorough { 2 } else { 1 }), ("americanist seeds", vec!["ła.ta", "¢a", "ñaƛ.λa"], 2)] {
+    for (boxname, seeds_txt, depth) in [("plain seeds", super::c08::SEEDS.to_vec(), if thorough { 2 } else { 1 }), ("americanist seeds", vec!["ła.ta", "¢a", "ñaƛ.λa"], 2),
+        // words typed with the ASCII shorthands for stress and length and no americanist letter: they must not behave as americanist input
+        ("ascii-shorthand seeds", vec!["'ti.na", "ka:.ni", ",so.ti'na:", "an;i", "'ta:"], 2)] {
         // the americanist box uses a small alphabet that creates and removes the five americanist segments
         let rules: Vec<&str> = if boxname == "plain seeds" { all_rules.clone() } else { let mut v = vec!["ɬ > l", "l > ɬ", "ɲ > n", "n > ɲ", "t > t͡s / _a", "t͡s > t", "t͡ɬ > t", "d͡ɮ > l"]; v.extend(all_rules.iter().take(12)); v };
         let actions: Vec<Vec<String>> = rules.iter().map(|s| vec![s.to_string()]).collect();
